@@ -484,11 +484,13 @@ pub fn run(ctx: &Ctx) {
             continue;
         }
         let s = out.out_str();
+        // a dump = a line made of two-digit hex cells only; a report = any other line besides the statement's own header
+        let is_row = |l: &str| !l.trim().is_empty() && l.split_whitespace().all(|c| c.len() == 2 && c.chars().all(|x| x.is_ascii_hexdigit()));
         let dumped = match tokenize(&out.stdout) {
             Ok(t) => t.iter().any(|e| matches!(e, Ev::Mem(_))),
-            Err(_) => !s.contains("Syntax Error"),
+            Err(_) => s.lines().any(|l| is_row(l)),
         };
-        let reported = s.contains("Syntax Error") || s.contains("Error") || s.contains("address");
+        let reported = s.lines().any(|l| !l.trim().is_empty() && !l.starts_with("Output of line") && !is_row(l));
         if dumped || !reported {
             ctx.fail(Failure {
                 key: format!("c17|range-outside-1MiB-printed|{}", name.split(' ').next().unwrap_or("")),
